@@ -15,6 +15,14 @@ SHARD = 150
 TYPES = ["buf", "and", "or", "xor", "not", "nand", "nor", "xnor", "0", "1", "x", "input", "bb_input", "bb_output", "foo", None]
 
 
+def fresh(names, base):
+    """a node name not used yet (dumps must never contain a name twice: a dict and a Coq list_to_map would disagree)"""
+    n, k = base, 0
+    while n in names:
+        n, k = f"{base}{k}", k + 1
+    return n
+
+
 def inject(rng, d):
     """Apply one rule-violating (or harmless) edit to a lint-clean dump; returns the name of the edit."""
     nodes = d["nodes"]
@@ -40,7 +48,7 @@ def inject(rng, d):
         c = by(["bb_output"])
         if c:
             src = rng.choice(c)[0]
-            nodes.append(["xb", "buf", True, [src]])
+            nodes.append([fresh(names, "xb"), "buf", True, [src]])
     elif kind == "bbout_nonbuf":
         c = by(["bb_output"])
         if c:
@@ -53,7 +61,7 @@ def inject(rng, d):
     elif kind == "unsup":
         rng.choice(nodes)[1] = "foo"
     elif kind == "dotted":
-        nodes.append([rng.choice(["zz.q", "ff0.extra", "a.b.c", ".x", "zz."]), rng.choice(["buf", "input", "bb_output", "bb_input"]), True, []])
+        nodes.append([fresh(names, rng.choice(["zz.q", "ff0.extra", "a.b.c", ".x", "zz."])), rng.choice(["buf", "input", "bb_output", "bb_input"]), True, []])
     elif kind == "drop_pin":
         c = by(["bb_input", "bb_output"])
         if c:
@@ -84,7 +92,7 @@ def inject(rng, d):
     elif kind == "pin_extra_fanout":
         c = by(["bb_input"])
         if c:
-            nodes.append(["yb", "buf", True, [rng.choice(c)[0]]])
+            nodes.append([fresh(names, "yb"), "buf", True, [rng.choice(c)[0]]])
     return kind
 
 
@@ -152,11 +160,11 @@ def gen_produced(rng):
     fn = rng.choice(PRODUCERS)
     case = {"fn": "produced", "producer": fn}
     if fn in ("limit_fanin", "limit_fanout", "ternary", "miter", "copy", "relabel"):
-        case["circuit"] = lib.rand_dag(rng, rng.randint(1, 4), rng.randint(1, 7), max_fanin=5,
+        case["circuit"] = lib.rand_dag(rng, rng.randint(1, 4), rng.randint(1, 6), max_fanin=5,
                                        p_const=0.3 if fn != "ternary" else 0.2)
         case["k"] = rng.randint(2, 4)
     elif fn in ("adder", "mux", "popcount"):
-        case["w"] = rng.randint(1, 6)
+        case["w"] = rng.randint(1, 3) if fn != "mux" else rng.randint(1, 4)   # vm_compute on string-keyed maps: keep produced graphs below ~40 nodes
         case["ci"] = rng.random() < 0.5
         case["co"] = rng.random() < 0.5
     elif fn == "strip_blackboxes":
@@ -167,7 +175,7 @@ def gen_produced(rng):
 
 
 def generate(rng, tier):
-    n = 400 if tier == "quick" else 4000
+    n = 240 if tier == "quick" else 3000
     out = [gen_raw(rng) for _ in range(n // 4)] + [gen_near_clean(rng) for _ in range(n)]
     out += [gen_produced(rng) for _ in range(n // 5)]
     return out
